@@ -575,6 +575,12 @@ def stepAtom (st : St) (op : String) (kv : KV) : St × String :=
     | _ => none
   match op, aop with
   | "t.init", _ => let s := Atomic.init (kv.nat "m"); ({ st with atom := s }, fmtAtom s none)
+  | "t.probedone", _ =>
+    -- the updater that had to wait (`t.lock … probe=1`) gets the lock, then replaces (new ≠ 0) or unlocks
+    let t := kv.nat "t"
+    let (s1, _) := Atomic.step st.atom (.lock t)
+    let (s2, _) := if kv.nat "new" ≠ 0 then Atomic.step s1 (.replace t (kv.nat "new")) else Atomic.step s1 (.unlock t)
+    ({ st with atom := s2 }, fmtAtom s2 none)
   | "t.space", _ => (st, fmtAtom st.atom none)     -- `GuestAddressSpace for &M / Rc<M> / Arc<M>`: no step of the replaceable cell
   | _, some a => let (s', r) := Atomic.step st.atom a; ({ st with atom := s' }, fmtAtom s' r)
   | _, none => (st, "bad-op")
@@ -595,7 +601,10 @@ def stepXBuild (st : St) (op : String) (kv : KV) : St × String :=
     let r : XenBuild.Req := { size := kv.nat "size", file := file, prot := optNat kv "prot", flags := optNat kv "flags",
                               xenFlags := BitVec.ofNat 32 (kv.nat "w"), xenData := kv.nat "data", guestBase := kv.nat "base" }
     let sc : XenBuild.Script := (kv.natList "sc").map (· != 0)
-    match XenBuild.fromRange r (kv.nat "page") st.xk sc with
+    let res := match optNat kv "greg" with
+      | some g => XenBuild.guestRegionFromRange r g (kv.nat "page") st.xk sc
+      | none => XenBuild.fromRange r (kv.nat "page") st.xk sc
+    match res with
     | (.ok reg, k', _) =>
       ({ st with xk := k', xregs := tset st.xregs (kv.nat "id") reg },
        s!"ok size={reg.size} prot={reg.prot} flags={reg.flags} fstart={match reg.fileStart with | some x => toString x | none => "none"} xf={reg.xenFlags} xd={reg.xenData} {fmtXK k'}")
